@@ -1,9 +1,10 @@
 (* Driver for the DistributedEnforcer *Self operations (coq/Dist.v on coq/Machine.v's state).
    case: (ID (cfg (pt isg arity prio)...) (kind rbac|domain) (links (pt (names) (domains))...)
-             (reqs (field...)...) (from K) (ops (op bit...)...))
+             (reqs (field...)...) (from K) (digest 0|1) (ops (op bit...)...))
    One model replica per persist bit; every replica starts from the empty enforcer over an empty
    adapter.  For every step k >= K and replica i prints, like harness/c19.go:
-     ID <TAB> k.i.res | k.i.adlog | k.i.adcontent | k.i.listed | k.i.links.<pt> | k.i.dec <TAB> value *)
+     ID <TAB> k.i.res | k.i.adlog | k.i.adcontent | k.i.listed | k.i.links.<pt> | k.i.dec <TAB> value
+   or, with (digest 1), the single line ID <TAB> k.i.all <TAB> MD5 of these values joined by newlines. *)
 open Common
 open Machine
 open Dist
@@ -93,7 +94,8 @@ let () =
   Sx.iter_stdin (fun c ->
     match Sx.list c with
     | [id; Sx.L (Sx.A "cfg" :: cfg); Sx.L [Sx.A "kind"; kind]; Sx.L (Sx.A "links" :: links);
-       Sx.L (Sx.A "reqs" :: reqs); Sx.L [Sx.A "from"; from]; Sx.L (Sx.A "ops" :: ops)] ->
+       Sx.L (Sx.A "reqs" :: reqs); Sx.L [Sx.A "from"; from]; Sx.L [Sx.A "digest"; digest]; Sx.L (Sx.A "ops" :: ops)] ->
+        let digest = Sx.atom digest = "1" in
         let id = Sx.atom id in
         let kind = Sx.atom kind in
         let cfg = parse_cfg cfg in
@@ -116,12 +118,20 @@ let () =
                 reps.(i) <- s';
                 if k >= from then begin
                   let out name v = Printf.printf "%s\t%d.%d.%s\t%s\n" id k i name v in
-                  out "res" res;
-                  out "adlog" (Stdlib.String.concat " ; " (Stdlib.List.map acall_str (drop seen s'.ad.alog)));
-                  out "adcontent" (content_key s'.ad.content);
-                  out "listed" (listed_key (listed cfg s'));
-                  Stdlib.List.iter (fun (pt, names, doms) -> out ("links." ^ pt) (links_key s' pt names doms)) links;
-                  out "dec" (decisions kind s' reqs)
+                  let adlog = Stdlib.String.concat " ; " (Stdlib.List.map acall_str (drop seen s'.ad.alog)) in
+                  let lks = Stdlib.List.map (fun (pt, names, doms) -> (pt, links_key s' pt names doms)) links in
+                  if digest then
+                    out "all" (Digest.to_hex (Digest.string (Stdlib.String.concat "\n"
+                      ([res; adlog; content_key s'.ad.content; listed_key (listed cfg s')]
+                       @ Stdlib.List.map snd lks @ [decisions kind s' reqs]))))
+                  else begin
+                    out "res" res;
+                    out "adlog" adlog;
+                    out "adcontent" (content_key s'.ad.content);
+                    out "listed" (listed_key (listed cfg s'));
+                    Stdlib.List.iter (fun (pt, v) -> out ("links." ^ pt) v) lks;
+                    out "dec" (decisions kind s' reqs)
+                  end
                 end) bits
           | [] -> failwith "bad log entry") ops
     | _ -> failwith "bad case")
